@@ -32,7 +32,7 @@ import wntr.sim.models.param as mparam
 from wntr.sim.core import WNTRSimulator
 from wntr.sim.solvers import NewtonSolver
 
-P = ["C16", "C05", "C10", "C04", "C06", "C09", "C01"]
+P = ["C16", "C05", "C10", "C04", "C06", "C09", "C01", "C11"]
 QN = "wntr.sim.core:WNTRSimulator.run_sim"
 
 
